@@ -115,6 +115,7 @@ struct Def
 struct Member
 {
     std::string kind;        // group + traits, used in signatures
+    std::string trait;       // coarser class for signatures where kind is too fine (generated undefined arguments)
     std::vector<Def> main;   // the model holding the root (empty = the root is parentless)
     std::vector<Def> lib;    // library model for imports
     std::string root;
@@ -576,9 +577,17 @@ void buildPool()
             if (!anyUndef) return;
             std::vector<Item> items;
             for (int i : seq) items.push_back({menu[i].name, {0, 0, 0}});
+            // signature trait: what follows the first undefined child
+            std::string after = "undefined-child-last";
+            {
+                bool seenU = false, d = false, st = false;
+                for (int i : seq) { if (menu[i].undefined) seenU = true; else if (seenU) { if (i == 6) st = true; else d = true; } }
+                if (d) after = "user-defined-child-after-undefined-one"; else if (st) after = "standard-child-after-undefined-one";
+            }
             for (int variant = 0; variant < 3; ++variant) {
                 if (variant == 2 && anyImport) continue; // the library definition holds no imports of its own
                 Member m;
+                m.trait = std::string("partially-defined:") + (variant == 0 ? "direct:" : variant == 1 ? "behind-intermediate:" : "imported:") + after;
                 m.kind = std::string("partially-defined:") + (variant == 0 ? "direct:" : variant == 1 ? "behind-intermediate:" : "imported:") + shape;
                 Def d; d.name = variant == 1 ? "w" : "r"; d.items = items;
                 if (variant == 0) { m.main = {d}; helpers(seq, m.main, m.lib, false); }
@@ -826,6 +835,7 @@ void runSpecial(uint64_t idx, Ctx &c)
     const std::vector<int> &list = *listp;
     UnitsPtr su = s < g_special.size() ? g_special[s].u : nullptr;
     std::string sk = s < g_special.size() ? g_special[s].kind : "null";
+    std::string sg = s < g_special.size() && !g_special[s].trait.empty() ? g_special[s].trait : sk; // signature class
     if (s < g_special.size() && g_special[s].defined) { c.violation("harness:special-is-defined", memberJson(g_special[s])); return; }
     UnitsPtr xu;
     std::string xk;
@@ -837,13 +847,13 @@ void runSpecial(uint64_t idx, Ctx &c)
         else { xu = su; xk = "itself"; }
     }
     ++c.judged;
-    c.outcome(sk + " x " + (xk == "defined" ? xk : "special"));
+    c.outcome(sg + " x " + (xk == "defined" ? xk : "special"));
     // "fully defined" is Units::isDefined(): it must say no for every one of these
-    if (su && x == 0 && su->isDefined()) report(c, "special:isDefined-true:" + sk, {{"special", sk}, {"special_spec", memberJson(g_special[s])}});
+    if (su && x == 0 && su->isDefined()) report(c, "special:isDefined-true:" + sg, {{"special", sk}, {"special_spec", memberJson(g_special[s])}});
     for (int dir = 0; dir < 2; ++dir) {
         const UnitsPtr &p = dir ? xu : su, &q = dir ? su : xu;
-        std::string where = sk + (dir ? ":as-second" : ":as-first") + (xk == "defined" ? "" : ":with-" + xk);
-        json d = {{"special", sk}, {"partner", x < list.size() ? memberJson(g_pool[list[x]]) : json(xk)}};
+        std::string where = sg + (g_special.size() > s && !g_special[s].trait.empty() ? "" : std::string(dir ? ":as-second" : ":as-first") + (xk == "defined" ? "" : ":with-" + xk));
+        json d = {{"special", sk}, {"argument_position", dir ? "second" : "first"}, {"partner", x < list.size() ? memberJson(g_pool[list[x]]) : json(xk)}};
         if (s < g_special.size()) d["special_spec"] = memberJson(g_special[s]);
         if (Units::compatible(p, q)) report(c, "special:compatible-true:" + where, d);
         double f = Units::scalingFactor(p, q);
@@ -869,11 +879,14 @@ void runUnchecked(uint64_t idx, Ctx &c)
     if (x < 3) { size_t pick[3] = {0, g_sub.size() / 2, g_sub.size() - 1}; xu = g_pool[g_sub[pick[x]]].u; xk = "defined"; }
     else { size_t t = x - 3; xu = t < g_nbasic ? g_special[t].u : nullptr; xk = t < g_nbasic ? g_special[t].kind : "null"; }
     ++c.judged;
-    c.outcome(sk + " x " + (xk == "defined" ? xk : "special"));
+    c.outcome((s < g_special.size() && !g_special[s].trait.empty() ? g_special[s].trait : sk) + " x " + (xk == "defined" ? xk : "special"));
     for (int dir = 0; dir < 2; ++dir) {
         const UnitsPtr &p = dir ? xu : su, &q = dir ? su : xu;
         double g = Units::scalingFactor(p, q, false);
-        if (g != 0.0) report(c, "unchecked:factor-nonzero:" + sk + (dir ? ":as-second" : ":as-first"), {{"special", sk}, {"partner", xk}, {"factor", dbl(g)}});
+        std::string sg = s < g_special.size() && !g_special[s].trait.empty() ? g_special[s].trait : sk;
+        json d = {{"special", sk}, {"partner", xk}, {"factor", dbl(g)}};
+        if (s < g_special.size()) d["special_spec"] = memberJson(g_special[s]);
+        if (g != 0.0) report(c, "unchecked:factor-nonzero:" + sg + (dir ? ":as-second" : ":as-first"), d);
     }
 }
 
